@@ -118,10 +118,28 @@ func rewriteImports(dir string) (rewritten, warnings []string, err error) {
 				changed = true
 			}
 		}
+		if rewriteGoStmts(f) > 0 {
+			changed = true
+			// the printer places comments by position; around rewritten statements that
+			// can go wrong, so only directives and what precedes the package clause stay
+			var keep []*ast.CommentGroup
+			for _, cg := range f.Comments {
+				dir := false
+				for _, c := range cg.List {
+					dir = dir || strings.HasPrefix(c.Text, "//go:")
+				}
+				if cg.End() < f.Package || dir {
+					keep = append(keep, cg)
+				}
+			}
+			f.Comments = keep
+			addImport(f, simPath+"/core", "verifcore")
+			goRewritten = append(goRewritten, rel)
+		}
 		ast.Inspect(f, func(n ast.Node) bool {
 			switch x := n.(type) {
 			case *ast.GoStmt:
-				warnings = append(warnings, fmt.Sprintf("%s:%d: go statement is outside the baton scheduler", rel, fset.Position(x.Pos()).Line))
+				warnings = append(warnings, fmt.Sprintf("%s:%d: go statement in an unexpected position is outside the baton scheduler", rel, fset.Position(x.Pos()).Line))
 			case *ast.SendStmt:
 				warnings = append(warnings, fmt.Sprintf("%s:%d: channel send is not a modelled yield point", rel, fset.Position(x.Pos()).Line))
 			case *ast.SelectStmt:
@@ -145,6 +163,118 @@ func rewriteImports(dir string) (rewritten, warnings []string, err error) {
 	})
 	sort.Strings(rewritten)
 	return
+}
+
+// goRewritten lists the files whose go statements were turned into simulated tasks.
+var goRewritten []string
+
+// rewriteGoStmts turns every go statement of f into a call of the simulator's
+// Go (the new goroutine becomes a task under the baton). The function value and
+// its arguments are evaluated where the go statement stood, as the language
+// prescribes: `go f(a, b)` becomes
+//
+//	{ verifA0, verifA1 := a, b; verifcore.Go(func() { f(verifA0, verifA1) }) }
+//
+// (literals stay in place so that untyped constants keep their meaning).
+func rewriteGoStmts(f *ast.File) int {
+	n := 0
+	conv := func(g *ast.GoStmt) ast.Stmt {
+		n++
+		call := g.Call
+		var lhs, rhs []ast.Expr
+		args := make([]ast.Expr, len(call.Args))
+		for i, a := range call.Args {
+			keep := false
+			switch x := a.(type) {
+			case *ast.BasicLit, *ast.FuncLit:
+				keep = true
+			case *ast.Ident:
+				keep = x.Name == "nil" || x.Name == "true" || x.Name == "false"
+			}
+			if keep {
+				args[i] = a
+				continue
+			}
+			id := ast.NewIdent(fmt.Sprintf("verifA%d", i))
+			lhs = append(lhs, id)
+			rhs = append(rhs, a)
+			args[i] = id
+		}
+		fun := call.Fun
+		if _, lit := fun.(*ast.FuncLit); !lit {
+			if _, plain := fun.(*ast.Ident); !plain {
+				// a method value or a more complex expression: evaluate it now
+				id := ast.NewIdent("verifFn")
+				lhs = append(lhs, id)
+				rhs = append(rhs, fun)
+				fun = id
+			}
+		}
+		inner := &ast.CallExpr{Fun: fun, Args: args, Ellipsis: call.Ellipsis}
+		if call.Ellipsis == token.NoPos {
+			inner.Ellipsis = token.NoPos
+		} else {
+			inner.Ellipsis = 1
+		}
+		spawn := &ast.ExprStmt{X: &ast.CallExpr{
+			Fun: &ast.SelectorExpr{X: ast.NewIdent("verifcore"), Sel: ast.NewIdent("Go")},
+			Args: []ast.Expr{&ast.FuncLit{
+				Type: &ast.FuncType{Params: &ast.FieldList{}},
+				Body: &ast.BlockStmt{List: []ast.Stmt{&ast.ExprStmt{X: inner}}},
+			}},
+		}}
+		blk := &ast.BlockStmt{}
+		if len(lhs) > 0 {
+			blk.List = append(blk.List, &ast.AssignStmt{Lhs: lhs, Tok: token.DEFINE, Rhs: rhs})
+		}
+		blk.List = append(blk.List, spawn)
+		return blk
+	}
+	fix := func(list []ast.Stmt) {
+		for i, st := range list {
+			if g, ok := st.(*ast.GoStmt); ok {
+				list[i] = conv(g)
+			}
+		}
+	}
+	ast.Inspect(f, func(nd ast.Node) bool {
+		switch x := nd.(type) {
+		case *ast.BlockStmt:
+			fix(x.List)
+		case *ast.CaseClause:
+			fix(x.Body)
+		case *ast.CommClause:
+			fix(x.Body)
+		case *ast.LabeledStmt:
+			if g, ok := x.Stmt.(*ast.GoStmt); ok {
+				x.Stmt = conv(g)
+			}
+		}
+		return true
+	})
+	return n
+}
+
+// addImport adds `name "path"` to the file's imports.
+func addImport(f *ast.File, path, name string) {
+	for _, im := range f.Imports {
+		if p, _ := strconv.Unquote(im.Path.Value); p == path {
+			return
+		}
+	}
+	spec := &ast.ImportSpec{Name: ast.NewIdent(name), Path: &ast.BasicLit{Kind: token.STRING, Value: strconv.Quote(path)}}
+	f.Imports = append(f.Imports, spec)
+	for _, d := range f.Decls {
+		if g, ok := d.(*ast.GenDecl); ok && g.Tok == token.IMPORT {
+			g.Specs = append(g.Specs, spec)
+			if !g.Lparen.IsValid() {
+				g.Lparen = g.Pos()
+				g.Rparen = g.End()
+			}
+			return
+		}
+	}
+	f.Decls = append([]ast.Decl{&ast.GenDecl{Tok: token.IMPORT, Specs: []ast.Spec{spec}}}, f.Decls...)
 }
 
 // genOSForward writes forwarding declarations for every exported name of the
